@@ -416,6 +416,8 @@ def c11(tier):
     rel_events(run, groups, "C11")
     run.samples.append({"input": tagged[0], "scales": SCALES})
     run.validate(shard=1500)
+    # the same buffer rendered at one scale after another (and written in between)
+    buffer_part(run, r, 120 if tier == "quick" else 3000, ["scale", "fresh"], "C11H")
     run.assumptions = std_assumptions()
     return run.finish()
 
@@ -722,6 +724,10 @@ def c12(tier):
                       {"input": c["input"], "entry": c.get("entry", "to_svg"), "settings": c.get("settings")})
     run.samples += [{"input": extra[1]}, {"input": extra[2]}]
     run.validate()
+    # the page of a buffer that grows and shrinks between renders is the page of what is in it now
+    keep = run.classify
+    buffer_part(run, r, 120 if tier == "quick" else 3000, ["canvas"], "C12H")
+    run.classify = keep
     # the model forwards on this corpus (and on the paragraphs of the bundled examples): Stages!FullDoc of each
     # text the model describes against the real conversion
     full_conformance(run, gen.bundled_chunks(12) + texts, "C12G", 250 if tier == "quick" else 6000)
@@ -871,6 +877,20 @@ def c04(tier):
     for i in range(n // 4):
         words = ["".join(r.choice(gen.LABELS[:10]) for _ in range(r.randint(1, 3))) for _ in range(r.randint(1, 3))]
         texts.append(gen.catalogue_scene(r, words))
+    # words spelled with the ASCII punctuation that has no drawing meaning, also in the spelling of entity and character
+    # references (they are label characters like any other), alone, in boxes and among strokes
+    ewords = ["AT&amp;T", "a&lt;b", "&#39;", "&quot;", "R&D", "50%", "[ok]", "x;y", "a?b", "&amp;amp;", "&gt;", "&nbsp;", "p@q", "$1", "&;", ";&", "&a", "&#x41;"]
+    for i in range(max(40, n // 10)):
+        ws = [r.choice(ewords) for _ in range(r.randint(1, 3))]
+        kind = i % 4
+        if kind == 0:
+            texts.append("  ".join(ws))
+        elif kind == 1:
+            texts.append(gen.box(sum(len(w) + 1 for w in ws) + 1, 1, r.choice(["sharp", "round"]), " ".join(ws)))
+        elif kind == 2:
+            texts.append("--> " + " ".join(ws) + " <--\n" + gen.random_grid(r, 12, 1, "-|+ab&;%", 0.5))
+        else:
+            texts.append(gen.random_grid(r, r.randint(4, 14), r.randint(1, 4), "ab&;%@?[]#1-|+", 0.6))
     observe_events(run, gen.dedup(texts), ["C04"], "random-labels")
     dressed_events(run, r, [(t, {"props": ["C04"]}, {"source": "random-labels, dressed"}) for t in gen.dedup(texts)], 5, "C04D")
     # rows that also contain quoted strings (content without quote, backslash, braces)
@@ -988,6 +1008,12 @@ def sink_cases(r, n, marker_prefix="mk"):
             # double-width characters after the payload, one to eight of them (every balance of bytes gained by
             # escaping against filler bytes dropped)
             pay = pay + "".join(r.choice(gen.WIDE[:12]) for _ in range(r.randint(1, 8)))
+        if i % 7 == 3:
+            # the payload spelled with look-alike delimiters (fullwidth forms, small form variants): characters of their
+            # own, which must come out as themselves and never as the ASCII characters they resemble
+            look = r.choice([{c: chr(ord(c) + 0xFEE0) for c in "<>&\"'/=!?-[]();"},
+                             {"<": "\ufe64", ">": "\ufe65", "&": "\ufe60", ";": "\ufe54", "=": "\ufe66"}])
+            pay = "".join(look.get(c, c) for c in pay)
 
         chan = ["plain", "quoted", "tag", "legend_name", "legend_decl", "quoted_tag"][i % 6]
         art = r.choice(["", gen.box(r.randint(2, 8), 1), gen.random_grid(r, 8, 2, "-|+/\\*o. ", 0.5), "o-->"])
@@ -1010,7 +1036,11 @@ def sink_cases(r, n, marker_prefix="mk"):
             t = gen.box(len(q) + 4, 1, "sharp", q)
             exp_t = []
         elif chan == "legend_name":
-            t = art + "\n# Legend:\n" + pay + " = {fill:red}\n"
+            # the payload as the name, or inside what a selector may carry after a name (pseudo-classes, attribute
+            # tests, combinators)
+            pre, post = r.choice([("", ""), ("", ""), ("b:not(", ")"), ("a:", ""), ("a.", ""), ("a[", "]"), ("a,", ""), ("a>", ""), ("a::", ""),
+                                  ("a:is(", ")"), ("a ", "")])
+            t = art + "\n# Legend:\n" + pre + pay + post + " = {fill:red}\n"
         else:
             p = pay.replace("{", "(").replace("}", ")")
             if r.random() < 0.3:
@@ -1103,9 +1133,12 @@ def c02(tier):
         d = "".join(chr(c) for c in chunk if c not in (123, 125))
         cases.append(("a\n# Legend:\nk = {" + d + "}\n", "legend", [], [[ord(ch) for ch in d]]))
     hostile = ["<", ">", "&", "'", "\"a\"", "]]>", "a&b<c>d", "&amp;", "&#0;", "&nbsp;", "&lt;b&gt;", "&#x3c;", "<!--", "\x00\x01\x02", "\x7f\x80\x9f", "￾￿"]
+    hostile += [" x", "  indented <label>", "trail  ", " a  b ", "\ta", "AT&amp;T", "x&lt;y", "a&#38;b", "&quot;q&quot;"]
     hostile += ["status\x1bok", "abc\x01def", "m[i[j]]>0", "a[b[0]]>c", "x]]>", "]]>]]>", "a\x08b", "ok\x0cgo", "1<2>0", "a&&b", "\x7f\x1f"]
     for hst in hostile:
-        cases.append((hst, "plain", [], []))
+        # (a printable run without blanks or drawing characters is one text run in the plain channel too)
+        whole = hst.isprintable() and all(ch not in gen.FULL + "’\"{}" and not ch.isspace() for ch in hst)
+        cases.append((hst, "plain", [[ord(ch) for ch in hst]] if whole else [], []))
         q = hst.replace('"', "'").replace("\\", "/")
         cases.append((' "' + q + '" --', "quoted", [[ord(ch) for ch in q]], []))
         d = hst.replace("{", "(").replace("}", ")")
@@ -1456,6 +1489,31 @@ def c13(tier):
             # the drawing alone on the page, a legend below it (extra = 1: only things below a blank row)
             cases.append(("\n" * nn + "\n".join(" " * k + x for x in D) + "\n\n# Legend:\na = {fill:red}\n",
                           {"idx": idx + 1, "k": k, "n": nn, "extra": 1, "lx": 0, "ly": 0, "lch": 0}))
+    # look-alikes above the drawing, on the same page: the same drawing with one row moved by a column, with one
+    # character changed or missing, a smaller / larger catalogue entry, other arcs - whatever is decided about them must not
+    # touch the drawing below (extra = 4: anything above, one blank row in between)
+    for j, (idx, k, nn) in enumerate(places):
+        if j % (5 if tier == "quick" else 9):
+            continue
+        D = list(cat[idx])
+        kind = j % 4
+        if kind == 0 and len(D) > 1:
+            y = r.randrange(len(D))
+            decoy = [(" " + x if i_ == y else x) for i_, x in enumerate(D)]
+        elif kind == 1:
+            y = r.randrange(len(D))
+            xs = [x_ for x_, ch in enumerate(D[y]) if ch != " "]
+            x_ = r.choice(xs)
+            decoy = [(x[:x_] + r.choice([" ", "-", "|", "a"]) + x[x_ + 1:] if i_ == y else x) for i_, x in enumerate(D)]
+        elif kind == 2:
+            decoy = list(cat[r.randrange(22)])
+        else:
+            decoy = gen.catalogue_art(r)
+        dk = r.choice([k, k, max(0, k - 1), k + 1, r.randint(0, 20)])
+        above = [" " * dk + x for x in decoy]
+        n2 = len(above) + 1
+        body = "\n".join(x.rstrip() for x in above) + "\n\n" + "\n".join(" " * k + x for x in cat[idx])
+        cases.append((body, {"idx": idx + 1, "k": k, "n": n2, "extra": 4, "lx": 0, "ly": 0, "lch": 0}))
     obs = observe.observe([{"input": t} for t, _ in cases], tag="C13B")
     for (t, circ), o in zip(cases, obs):
         run.add_event({"props": ["C13"], "rows": o["rows"], "doc": o["doc"], "circ": circ}, {"input": t, "circ": circ})
@@ -1838,6 +1896,8 @@ def c18(tier):
     # inputs that begin with an invisible character (a byte order mark is an ordinary cell character), a blank line or a blank
     for i in range(0, len(corpus), 12):
         corpus.append(r.choice(["\ufeff", "\u200b", "\n", " ", "\t"]) + corpus[i])
+    # quoted labels with blanks at their edges (the text a switch must not touch)
+    corpus += ['"  -> | <-" --', '+------+\n|" x  "|\n+------+', '" lead"\n"trail "\n"  both  " *--']
     corpus = gen.dedup(corpus + pool(r, tier, None, 150))
     for t in corpus:
         g = [({"input": t, "want_style": True}, None)]
@@ -1857,8 +1917,10 @@ def c18(tier):
             j += 1
         c3 = r.sample(cols, 3)            # three different colours, so that a swap shows
         st = {"fill_color": c3[0], "background": c3[1], "stroke_color": c3[2],
-              "font_family": r.choice(["Arial", "monospace", "Fira Code, monospace"]), "font_size": r.randint(1, 40),
-              "stroke_width": r.choice([0.5, 1.0, 2.0, 3.25])}
+              "font_family": r.choice(["Arial", "monospace", "Fira Code, monospace"]),
+              # numbers over several orders of magnitude: none of them is a length of the drawing
+              "font_size": r.choice([r.randint(1, 40), 1, 2, 72, 200, 1000]),
+              "stroke_width": r.choice([0.5, 1.0, 2.0, 3.25, 0.125, 16.0, 17.0, 20.0, 64.0, 250.0])}
         sw = st["stroke_width"]
         vals = {"stroke": c3[2], "fill": c3[0], "back": c3[1], "font": st["font_family"], "size": str(st["font_size"]),
                 "width": str(int(sw)) if sw == int(sw) else repr(sw)}
@@ -2054,6 +2116,17 @@ def c07(tier):
     run.model("ServiceInd", path, timeout=3000)
     corpus = [t for t in gen.mixed_corpus(r, ninputs)] + [b for _, b in gen.bundled_files()][:6]
     corpus += pool(r, tier, None, 200)          # the shared pool: the families of every other property
+    # catalogue drawings and their look-alikes (one row moved by a column, one character changed): whatever is remembered
+    # about one must not decide the other, in whichever order a process meets them
+    cat7 = _json.load(open(os.path.join(common.ROOT, "verifpy", "catalogue.json"), encoding="utf-8"))
+    for idx in r.sample(range(2, 22), 8 if tier == "quick" else 20):
+        D = list(cat7[idx])
+        y = r.randrange(len(D))
+        corpus.append("\n".join(D))
+        corpus.append("\n".join((" " + x if i_ == y else x) for i_, x in enumerate(D)))
+        xs = [x_ for x_, ch in enumerate(D[y]) if ch != " "]
+        x_ = r.choice(xs)
+        corpus.append("\n".join((x[:x_] + r.choice(["-", "|", "a"]) + x[x_ + 1:] if i_ == y else x) for i_, x in enumerate(D)))
     corpus += [gen.box(6, 1, "round", "{a}") + "\n# Legend:\na = {fill:red}", '"quoted" text 一二',
                gen.box(20, 1, "sharp", "{red,big,bold,hot}"), gen.box(12, 2, "uni", "{x1,y2,z3}") + "  ( a )--  ( b )--",
                "  ( a )--\n\n        ( a )--", gen.box(16, 1, "round", "{k1,k2,k3,k4}") + "\n# Legend:\nk1={a}\nk2={b}"]
@@ -2195,6 +2268,9 @@ def c07(tier):
         run.add_event(ev, m)
     run.samples.append({"key": events[0]["key"], "sha": events[0]["sha"], "proc": 1})
     run.validate(module="ServiceTrace", cfg="ServiceTrace.cfg", shard=10 ** 9)
+    # stateless also as an object: a buffer that is kept, rendered, written and rendered again gives what a fresh one gives
+    run.classify = Run.classify.__get__(run)
+    buffer_part(run, r, 120 if tier == "quick" else 3000, ["fresh"], "C07H", model=True)
     run.assumptions = std_assumptions() + ["SHA-256 equality stands for byte equality",
                                            "thread races are observed, not enumerated: 16 threads from one barrier on 16 cores"]
     return run.finish()
@@ -2446,3 +2522,112 @@ def c20(tier):
 
 
 PLANS.update({"C20": c20})
+
+
+# ------------------------------------------------------------------------------------------
+# histories of one buffer object (spec/Buffer.tla, spec/BufferTrace.tla)
+BUF_SEP = "\n\x1e\n"
+BUF_INS = "-|+/\\*o.'_=<>^vx:~ab"
+
+
+def buffer_histories(run, r, n, clauses, tag):
+    """n scripts on one CellBuffer each: build it from a text, render, write cells (inside and beyond the present
+    extent, removing also the right-most / bottom-most ones), render again at the same and at other scales ...  Each
+    render is paired with the ordinary conversion of the text that spells the object's state at that moment.
+    BufferTrace keeps the state itself from the recorded writes and evaluates the clauses on every render."""
+    from .project import project
+    base = pool(r, "thorough", lambda t: gen.tame(t) and not gen.has_legend(t) and '"' not in t and t.strip()
+                and all(not common_wide(c) for c in t) and len(t) < 600)
+    r.shuffle(base)
+    base = base[:n]
+    reqs, plans = [], []
+    for i, t in enumerate(base):
+        grid = [list(row) for row in t.split("\n")]
+
+        def text_of():
+            return "\n".join("".join(row).rstrip() for row in grid)
+        ops, plan = [], []          # plan: ("load", rows) | ("insert", x, y, ch) | ("remove", x, y) | ("render", scale, text)
+        plan.append(("load", gen.rows_of(t)))
+        for rnd in range(r.randint(2, 4)):
+            if rnd > 0:
+                for _ in range(r.randint(1, 4)):
+                    cells = [(x, y) for y, row in enumerate(grid) for x, ch in enumerate(row) if ch != " "]
+                    if cells and r.random() < 0.4:
+                        # remove: any cell, the right-most or the bottom-most one
+                        x, y = r.choice([r.choice(cells), max(cells), max(cells, key=lambda c: (c[1], c[0]))])
+                        grid[y][x] = " "
+                        ops.append({"op": "remove", "x": x, "y": y})
+                        plan.append(("remove", x, y))
+                    else:
+                        h = len(grid)
+                        w = max([len(row) for row in grid] + [1])
+                        x, y = r.choice([(r.randrange(w), r.randrange(h)), (w + r.randint(0, 6), r.randrange(h)),
+                                         (r.randrange(w), h + r.randint(0, 3)), (w + r.randint(0, 3), h + r.randint(0, 2))])
+                        ch = r.choice(BUF_INS)
+                        while len(grid) <= y:
+                            grid.append([])
+                        while len(grid[y]) <= x:
+                            grid[y].append(" ")
+                        grid[y][x] = ch
+                        ops.append({"op": "insert", "x": x, "y": y, "ch": ord(ch)})
+                        plan.append(("insert", x, y, ord(ch)))
+            for s in r.sample([8.0] + SCALES, r.randint(1, 2)):
+                ops.append({"op": "render", "settings": {"scale": s}})
+                plan.append(("render", s, text_of()))
+        reqs.append({"id": len(reqs), "input": t, "entry": "script", "ops": ops})
+        plans.append(plan)
+    fresh_reqs = []
+    for plan in plans:
+        for st in plan:
+            if st[0] == "render":
+                fresh_reqs.append({"id": len(fresh_reqs), "input": st[2], "entry": "settings", "settings": {"scale": st[1]}})
+    resp = common.run_requests(reqs, tag=tag)
+    fresp = common.run_requests(fresh_reqs, tag=tag + "f")
+    fi = 0
+    for k, plan in enumerate(plans):
+        rs = resp[k]
+        parts = rs.get("svg", "").split(BUF_SEP) if rs.get("ok") else []
+        pi = 0
+        first = True
+        for st in plan:
+            meta = {"input": base[k], "script": reqs[k]["ops"], "source": "buffer history"}
+            if st[0] == "load":
+                ev = {"ev": "load", "rows": st[1]}
+            elif st[0] == "insert":
+                ev = {"ev": "insert", "x": st[1], "y": st[2], "ch": st[3], "rel": 0}
+            elif st[0] == "remove":
+                ev = {"ev": "remove", "x": st[1], "y": st[2], "rel": 0}
+            else:
+                bad_doc = {"wf": 0, "error": common.outcome(rs), "elems": [], "w": 0, "h": 0}
+                doc = project(parts[pi], st[1], False) if pi < len(parts) else bad_doc
+                pi += 1
+                fr = fresp[fi]
+                fi += 1
+                fdoc = project(fr["svg"], st[1], False) if fr.get("ok") else bad_doc
+                ev = {"ev": "render", "rel": 0, "props": clauses, "doc": doc, "fresh": {"rows": gen.rows_of(st[2]), "doc": fdoc}}
+                meta.update({"state_text": st[2], "settings": {"scale": st[1]}})
+            run.add_event(ev, meta)
+    return len(plans)
+
+
+def buffer_part(run, r, n, clauses, tag, model=False):
+    """histories of one buffer object against Buffer.tla / BufferTrace.tla; a failing 'driver' clause (the text the
+    driver paired with a render does not spell the state BufferTrace computed) is a defect of this harness"""
+    if model:
+        path = os.path.join(common.rundir(), "MC_Buffer.cfg")
+        with open(path, "w") as f:
+            f.write("CONSTANTS\n  W = 2\n  H = 2\n  Chars = {45, 124}\nSPECIFICATION Spec\n"
+                    "INVARIANTS TypeOK WritesCommute WriteIdempotent RemoveUndoes\nCHECK_DEADLOCK FALSE\n")
+        run.model("Buffer", path)
+    old = run.classify
+
+    def classify(preds):
+        if "driver" in preds:
+            raise common.ToolError("buffer history: the driver's state text does not spell the state of BufferTrace")
+        return [(p_, None) for p_ in sorted(preds)]
+    run.classify = classify
+    k = buffer_histories(run, r, n, clauses, tag)
+    run.validate(module="BufferTrace", cfg="BufferTrace.cfg", shard=1500)
+    run.classify = old
+    run.notes["buffer_histories"] = k
+    return k
